@@ -32,12 +32,13 @@ TOLERANCES = {
 }
 ASSUMPTIONS = [
     "a CombinedModel's flat parameter vector is consumed in model order, one entry per addressed parameter (sub-models define the order of their own parameters)",
-    "CombinedModel dofs are (position, parameter name) pairs as annotated in its signature",
+    "CombinedModel dofs are (position, parameter name) pairs as annotated in its signature; a name may also be a list of names of that sub-model, consuming one value per name",
+    "a HeterogeneousLinearModel applied at another resolution uses the nearest-neighbour (cv2.INTER_NEAREST) resampling of its original label map",
 ]
 FLOORS = {
-    "quick": {"clip": 300, "linear": 300, "combined_composition": 100, "combined_routing": 300, "heterogeneous_linear": 80, "threshold": 150, "kernel_reproduces_values": 60,
+    "quick": {"clip": 300, "linear": 300, "combined_composition": 100, "combined_routing": 300, "heterogeneous_linear": 80, "heterogeneous_resolution_history": 100, "combined_routing_grouped": 100, "threshold": 150, "kernel_reproduces_values": 60,
               "kernel_numba_equals_plain_sum": 150, "polynomial_span": 5},
-    "thorough": {"clip": 3000, "linear": 3000, "combined_composition": 1000, "combined_routing": 3000, "heterogeneous_linear": 800, "threshold": 1500, "kernel_reproduces_values": 600,
+    "thorough": {"clip": 3000, "linear": 3000, "combined_composition": 1000, "combined_routing": 3000, "heterogeneous_linear": 800, "heterogeneous_resolution_history": 1000, "combined_routing_grouped": 1000, "threshold": 1500, "kernel_reproduces_values": 600,
                  "kernel_numba_equals_plain_sum": 1500, "polynomial_span": 5},
 }
 SHARD_TIMEOUT = {"quick": 1500, "thorough": 7200}
@@ -183,6 +184,34 @@ def run_shard(spec, R):
                         seq = p(seq)
                     R.check(np.array_equal(cm2(x), seq), "combined_routing", {**case, "dofs": [list(t) for t in sub], "parameters": vals.tolist()},
                             key="C14:combined_model_subset_routing_unusable")
+                # the same subset with the parameters of one sub-model grouped into one entry (position, [names]);
+                # each entry consumes as many values as it names
+                grouped = []
+                for pos, nm in sub:
+                    if grouped and grouped[-1][0] == pos and rng.random() < 0.8:
+                        grouped[-1][1].append(nm)
+                    else:
+                        grouped.append((pos, [nm]))
+                if len(grouped) < len(sub):
+                    parts3 = [parts_pool[i][1]() for i in idx]
+                    ref3 = [type(p).__new__(type(p)) for p in parts3]
+                    for r3, p3 in zip(ref3, parts3):
+                        r3.__dict__.update(p3.__dict__)
+                    cm3 = darsia.CombinedModel(parts3)
+                    gd = [(pos, nms[0] if len(nms) == 1 and rng.random() < 0.5 else list(nms)) for pos, nms in grouped]
+                    ok, _ = R.guarded("combined_routing", lambda: cm3.update_model_parameters(vals.copy(), gd),
+                                      key=lambda e, w: "C14:combined_model_subset_routing_unusable")
+                    if ok:
+                        off = 0
+                        for pos, nms in grouped:
+                            ref3[pos].update_model_parameters(vals[off : off + len(nms)].copy(), list(nms))
+                            off += len(nms)
+                        seq = x.copy()
+                        for p in ref3:
+                            seq = p(seq)
+                        R.check(np.array_equal(cm3(x), seq), "combined_routing", {**case, "dofs": [[p, n_] for p, n_ in gd], "parameters": vals.tolist(), "what": "grouped entries"},
+                                key="C14:combined_model_subset_routing_unusable")
+                        R.count("combined_routing_grouped")
             R.sig(["combined", names], True, cls="combined")
 
         # ============================================= heterogeneous models
@@ -210,6 +239,24 @@ def run_shard(spec, R):
                         hom = darsia.LinearModel(scaling=float(sc[li]), offset=float(of[li]))(x)
                         good &= bool(np.allclose(out[labels == v], hom[labels == v], rtol=1e-14, atol=1e-14))
                     R.check(good, "heterogeneous_linear", case)
+                    # call history on one object: other resolutions in between, then the original resolution again;
+                    # at another resolution the labels are the nearest-neighbour resampling of the ORIGINAL label map
+                    import cv2
+                    hist_good, steps = True, []
+                    for _h in range(int(rng.integers(1, 4))):
+                        shp2 = (int(rng.integers(2, 17)), int(rng.integers(2, 17)))
+                        x2 = rng.uniform(-1, 2, size=shp2)
+                        ok2, out_h = R.guarded("heterogeneous_linear", lambda: hm(x2))
+                        if not ok2:
+                            break
+                        lab2 = cv2.resize(labels.astype(np.uint8), tuple(reversed(shp2)), interpolation=cv2.INTER_NEAREST)
+                        steps.append(list(shp2))
+                        for li, v in enumerate(values):
+                            hist_good &= bool(np.allclose(out_h[lab2 == v], (sc[li] * x2 + of[li])[lab2 == v], rtol=1e-14, atol=1e-14))
+                    ok2, out_back = R.guarded("heterogeneous_linear", lambda: hm(x))
+                    if ok2:
+                        R.check(hist_good and np.array_equal(out_back, out), "heterogeneous_linear", {**case, "what": "resolution history on one object", "resolutions": steps})
+                        R.count("heterogeneous_resolution_history")
                     # parameter routing: scalings first, then offsets
                     newp = rng.uniform(0.5, 2, size=2 * nl)
                     ok, _ = R.guarded("heterogeneous_linear", lambda: hm.update_model_parameters(newp.copy(), None))
